@@ -1866,3 +1866,6 @@ mod put_or_update_tests {
         cached.admission_policy.weight_of(&key_id)
     }
 }
+
+#[cfg(cached_verif)]
+mod verif_hooks;
